@@ -16,10 +16,10 @@ ASSUMPTIONS = [
     'blobs longer than 80 bytes have symbolic first/last two bytes and concrete filler (content is never inspected by length-prefix code)',
 ]
 BOUNDS = {
-    'quick': 'CompactSize: every n in [0,2^64); decoders: every 9-byte buffer; script numbers: every |n| < 2^63 (encode) and every byte string of <= 8 bytes (decode); push header: lengths {0,1,2,20,32,33,64,65,71,75,76,77,255,256,520,65535,65536}; scripts: fully symbolic raw scripts of <= 2 bytes, command sequences of <= 3 items',
-    'thorough': 'as quick, plus fully symbolic raw scripts of 3 bytes, command sequences of <= 4 items with more data lengths',
+    'quick': 'CompactSize: every n in [0,2^64); decoders: every 9-byte buffer; script numbers: every |n| < 2^63 (encode) and every byte string of <= 8 bytes (decode); push header: lengths {0,1,2,20,32,33,64,65,71,75,76,77,255,256,520,65535,65536}; scripts: fully symbolic raw scripts of <= 2 bytes, command sequences of <= 2 items',
+    'thorough': 'as quick, plus command sequences of 3 items and more data lengths for <= 2 items',
 }
-OUTSIDE = 'scripts longer than the stated item count; OP_PUSHDATA4; numbers beyond 8 bytes'
+OUTSIDE = 'scripts longer than the stated item count; fully symbolic raw scripts of 3 or more bytes (>30 000 paths, no verdict in 50 min; one non-minimal-push shape behind the opcode 4e, which the library treats as a plain opcode, was seen there and is outside the harness exclusion rule); OP_PUSHDATA4; numbers beyond 8 bytes'
 
 
 def _mods():
@@ -188,7 +188,7 @@ def h_script_raw_roundtrip(ex, lengths):
         return
     if n == 3:
         # second-position non-minimal pushes
-        nm2 = s_and(s_or(raw[0] == 0, raw[0] > 0x4e), s_or(s_and(raw[1] == 0x4c, raw[2] <= 75), raw[1] == 0x4d))
+        nm2 = s_and(s_or(raw[0] == 0, raw[0] >= 0x4e), s_or(s_and(raw[1] == 0x4c, raw[2] <= 75), raw[1] == 0x4d))     # (4e: taken as a plain opcode by the library)
         if bool(nm2):
             ex.reach('non-minimal-push-input')
             return
@@ -324,11 +324,10 @@ def jobs(tier):
     J.append(Job('scriptnum_decode', h_scriptnum_decode, W=80, setup=setup))
     J.append(Job('data_pack', h_data_pack, W=40, setup=setup))
     J.append(Job('script_raw_1_2', h_script_raw_roundtrip, W=40, setup=setup, params=dict(lengths=[0, 1, 2]), budget_s=1500))
-    if not q:
-        J.append(Job('script_raw_3', h_script_raw_roundtrip, W=40, setup=setup, params=dict(lengths=[3]), budget_s=3000))
+    # (fully symbolic raw scripts of 3 bytes: more than 30 000 paths, did not finish in 50 min - not registered)
     for n in ([1, 2] if q else [1, 2, 3]):
         J.append(Job('script_cmds_%d' % n, h_script_cmds, W=40, setup=setup,
-                     params=dict(nitems=n, opaque=OPAQUE_LENGTHS_Q if (q or n == 3) else OPAQUE_LENGTHS_T), budget_s=3000))
+                     params=dict(nitems=n, opaque=OPAQUE_LENGTHS_Q if (q or n == 3) else OPAQUE_LENGTHS_T), budget_s=3000 if q else 9000))
     J.append(Job('script_heuristic_exhibit', h_script_heuristic_exhibit, W=40, setup=setup))
     J.append(Job('script_nested_exhibit', h_script_nested_exhibit, W=40, setup=setup))
     return J
